@@ -761,16 +761,22 @@ type ipos struct {
 // instruction satisfying avoid. It returns the block trace when found.
 // If from is nil the search starts at function entry.
 func pathAvoiding(fn *ssa.Function, from ssa.Instruction, target, avoid func(ssa.Instruction) bool) ([]*ssa.BasicBlock, bool) {
+	// The search is sensitive to boolean flag variables: when a block ends in
+	// `if flag` and flag is a phi of that block with a constant on the edge the
+	// path arrived by (`found := false; for … { found = true; break }; if !found`),
+	// only the consistent successor is followed.
 	type st struct {
 		b     *ssa.BasicBlock
+		prev  *ssa.BasicBlock
 		start int
 		trace []*ssa.BasicBlock
 	}
+	type key struct{ b, prev *ssa.BasicBlock }
 	var q []st
-	seen := map[*ssa.BasicBlock]bool{}
+	seen := map[key]bool{}
 	if from == nil {
-		q = append(q, st{fn.Blocks[0], 0, nil})
-		seen[fn.Blocks[0]] = true
+		q = append(q, st{fn.Blocks[0], nil, 0, nil})
+		seen[key{fn.Blocks[0], nil}] = true
 	} else {
 		b := from.Block()
 		i := 0
@@ -779,7 +785,7 @@ func pathAvoiding(fn *ssa.Function, from ssa.Instruction, target, avoid func(ssa
 				i = j + 1
 			}
 		}
-		q = append(q, st{b, i, nil})
+		q = append(q, st{b, nil, i, nil})
 		// note: from.Block() can be revisited from its start through a loop
 	}
 	for len(q) > 0 {
@@ -800,10 +806,36 @@ func pathAvoiding(fn *ssa.Function, from ssa.Instruction, target, avoid func(ssa
 		if blocked {
 			continue
 		}
-		for _, nx := range s.b.Succs {
-			if !seen[nx] {
-				seen[nx] = true
-				q = append(q, st{nx, 0, tr})
+		succs := s.b.Succs
+		if s.prev != nil && len(s.b.Instrs) > 0 && len(succs) == 2 {
+			if iff, ok := s.b.Instrs[len(s.b.Instrs)-1].(*ssa.If); ok {
+				v, pol := stripNot(iff.Cond, true)
+				if phi, ok := v.(*ssa.Phi); ok && phi.Block() == s.b {
+					for i, p := range s.b.Preds {
+						if p == s.prev {
+							if isConstBool(phi.Edges[i], true) {
+								if pol {
+									succs = succs[:1]
+								} else {
+									succs = succs[1:]
+								}
+							} else if isConstBool(phi.Edges[i], false) {
+								if pol {
+									succs = succs[1:]
+								} else {
+									succs = succs[:1]
+								}
+							}
+						}
+					}
+				}
+			}
+		}
+		for _, nx := range succs {
+			k := key{nx, s.b}
+			if !seen[k] {
+				seen[k] = true
+				q = append(q, st{nx, s.b, 0, tr})
 			}
 		}
 	}
